@@ -17,6 +17,7 @@ import (
 	"runtime/debug"
 	"sort"
 	"strings"
+	"sync"
 	"time"
 
 	"github.com/skycoin/skycoin/src/api"
@@ -47,6 +48,7 @@ type route struct {
 	uri     string
 	methods map[string]bool
 	sets    []string // empty = "any"
+	args    []string // parameter names documented under "Args:"
 }
 
 var (
@@ -54,6 +56,7 @@ var (
 	reMethod = regexp.MustCompile(`(?m)^Method: ([A-Z, ]+)`)
 	reSets   = regexp.MustCompile(`(?m)^API sets: (.*)$`)
 	reSet    = regexp.MustCompile("`([A-Z_]+)`")
+	reArg    = regexp.MustCompile(`(?m)^\s+([a-z_]+):`)
 )
 
 func parseReadme() []route {
@@ -93,6 +96,16 @@ func parseReadme() []route {
 		}
 		for _, x := range reSet.FindAllStringSubmatch(sets[len(sets)-1][1], -1) {
 			r.sets = append(r.sets, x[1])
+		}
+		// the documented parameters: the indented "name:" lines after "Args:" inside the same code block
+		block := s[loc[1]:]
+		if k := strings.Index(block, "```"); k >= 0 {
+			block = block[:k]
+		}
+		if k := strings.Index(block, "Args:"); k >= 0 {
+			for _, x := range reArg.FindAllStringSubmatch(block[k+len("Args:"):], -1) {
+				r.args = append(r.args, x[1])
+			}
 		}
 		out = append(out, r)
 	}
@@ -208,7 +221,72 @@ func panicSite(stack string) string {
 	return "unknown"
 }
 
+// A request that computes for ever cannot be seen from inside the bubble (simulated time only passes while every
+// goroutine is blocked) and cannot be stopped.  apiWatchdog runs outside every bubble on the real clock: a request
+// that is still being served after hangAfter of real time is reported as a hang (the slowest legitimate requests -
+// encrypting a wallet - take well under a second) and the worker process ends with the run recorded.
+const hangAfter = 20 * time.Second
+
+var reqWatch struct {
+	mu     sync.Mutex
+	active bool
+	start  time.Time
+	c      *sim.Ctx
+	desc   string
+	sig    string
+}
+
+func apiWatchdog() {
+	for {
+		time.Sleep(time.Second)
+		reqWatch.mu.Lock()
+		if !reqWatch.active || sim.WallNow().Sub(reqWatch.start) < hangAfter {
+			reqWatch.mu.Unlock()
+			continue
+		}
+		c, desc, sig := reqWatch.c, reqWatch.desc, reqWatch.sig
+		reqWatch.active = false
+		reqWatch.mu.Unlock()
+		c.Logf("no response to %s after %v of real time", desc, hangAfter)
+		if !c.KnownHit("request-hangs", sig, "%s has not been answered after %v of real time (the handler is still computing)", desc, hangAfter) {
+			c.Violate("request-hangs", sig, "%s has not been answered after %v of real time (the handler is still computing)", desc, hangAfter)
+		}
+		if c.Bail == nil {
+			sim.Harnessf("a request hangs and the run cannot be ended")
+		}
+		c.Bail()
+	}
+}
+
+// hangSignature names a request that does not return: the route and the count parameters it carries.
+func hangSignature(q apiReq) string {
+	vals, _ := url.ParseQuery(q.query)
+	if b, err := url.ParseQuery(q.body); err == nil {
+		for k, v := range b {
+			vals[k] = v
+		}
+	}
+	var big []string
+	for _, k := range []string{"num", "scan", "n"} {
+		if v := vals.Get(k); len(v) >= 7 {
+			big = append(big, k+"=huge")
+		}
+	}
+	sort.Strings(big)
+	return q.method + " " + q.uri + " " + strings.Join(big, ",")
+}
+
 func (a *apiNode) do(q apiReq) (resp apiResp) {
+	reqWatch.mu.Lock()
+	reqWatch.active, reqWatch.start, reqWatch.c = true, sim.WallNow(), a.c
+	reqWatch.desc = fmt.Sprintf("%s %s (query %q, body %q)", q.method, q.uri, trunc(q.query, 200), trunc(q.body, 200))
+	reqWatch.sig = hangSignature(q)
+	reqWatch.mu.Unlock()
+	defer func() {
+		reqWatch.mu.Lock()
+		reqWatch.active = false
+		reqWatch.mu.Unlock()
+	}()
 	target := q.uri
 	if q.query != "" {
 		target += "?" + q.query
@@ -691,9 +769,44 @@ func runAPICrash(c *sim.Ctx) {
 			vals.Add(k, v)
 			jsonBody[k] = v
 		}
-		// parameters by name, drawn from live state or mutated
-		for _, p := range []string{"addrs", "address", "hashes", "uxid", "txid", "id", "seq", "hash", "start", "end", "num", "verbose", "confirmed", "rawtx", "encoded_transaction", "password", "label", "seed", "type", "key", "val", "page", "limit", "sort", "encoded", "scan", "n", "ignore_unconfirmed", "unsigned", "wallet_id"} {
-			if !t.Chance("param-"+p, 1, 3) {
+		// Half of the requests carry the parameters the README documents for the route (most of them; numbers at and
+		// around what the live state makes meaningful: heights at, just below and far above the head); the others
+		// carry an arbitrary third of all parameter names.
+		paramNames := []string{"addrs", "address", "hashes", "uxid", "txid", "id", "seq", "hash", "start", "end", "num", "verbose", "confirmed", "rawtx", "encoded_transaction", "password", "label", "seed", "type", "key", "val", "page", "limit", "sort", "encoded", "scan", "n", "ignore_unconfirmed", "unsigned", "wallet_id", "seqs"}
+		documented := len(rt.args) > 0 && t.Bool("documented-args")
+		if documented {
+			paramNames = rt.args
+			c.Count("probe.request_with_documented_parameters")
+		}
+		headSeq := uint64(len(a.chain))
+		for _, p := range paramNames {
+			if documented {
+				if !t.Chance("doc-param-"+p, 3, 4) {
+					continue
+				}
+				switch p {
+				case "num", "n", "scan":
+					if strings.Contains(rt.uri, "/wallet") && !t.Chance("doc-count-huge", 1, 100) {
+						// how many addresses to make or to scan: small numbers; the astronomically large ones are a recorded
+						// finding (the request never returns) and each occurrence costs the run, so they are drawn rarely
+						addParam(p, []string{"0", "1", "2", "3", "20", "100"}[t.Pick("doc-count", 1, 3, 2, 2, 1, 1)])
+						continue
+					}
+				}
+				switch p {
+				case "seq", "start", "end", "num", "n", "page", "limit", "scan":
+					addParam(p, []string{"0", "1", "2", fmt.Sprint(headSeq), fmt.Sprint(headSeq + 1), fmt.Sprint(headSeq - 1), "4294967295", "4294967296", "9223372036854775807", "9223372036854775808", "18446744073709551615", "18446744073709551614"}[t.Pick("doc-num", 3, 4, 3, 3, 2, 2, 1, 1, 2, 2, 3, 1)])
+					continue
+				}
+			} else if !t.Chance("param-"+p, 1, 3) {
+				continue
+			}
+			if p == "seqs" {
+				var l []string
+				for k := 0; k < 1+t.Int("seqs-n", 4); k++ {
+					l = append(l, []string{"0", "1", fmt.Sprint(headSeq), fmt.Sprint(headSeq + 1), "18446744073709551615", "x", "1", ""}[t.Pick("seqs-v", 3, 3, 2, 1, 1, 1, 1, 1)])
+				}
+				addParam(p, strings.Join(l, ","))
 				continue
 			}
 			var v string
@@ -709,6 +822,9 @@ func runAPICrash(c *sim.Ctx) {
 				v = pick(txids, "txid")
 			case "id", "wallet_id":
 				v = pick(append(a.walletNames, "nope.wlt", "", "../x.wlt", pick(addrs, "addr")), "id")
+				if documented && t.Chance("doc-valid-wallet", 3, 4) {
+					v = pick(a.walletNames, "doc-wallet")
+				}
 			case "rawtx", "encoded_transaction":
 				v = pick(rawtxs, "rawtx")
 				if t.Chance("truncate-rawtx", 1, 5) && len(v) > 4 {
@@ -724,6 +840,9 @@ func runAPICrash(c *sim.Ctx) {
 				v = []string{"asc", "desc", "up", ""}[t.Int("sort-val", 4)]
 			default:
 				v = []string{"x", "pw", "", strings.Repeat("y", 300), "\xff\xfe", "k1"}[t.Int("str-val", 6)]
+				if documented && p == "password" {
+					v = []string{"pw", "", "wrong"}[t.Pick("doc-password", 2, 2, 1)]
+				}
 			}
 			addParam(p, v)
 		}
@@ -798,6 +917,33 @@ func runAPICrash(c *sim.Ctx) {
 			if t.Chance("huge-body", 1, 30) {
 				q.body += "&pad=" + strings.Repeat("z", 1<<16)
 			}
+		}
+		if c.Property == "C28" && t.Chance("directed-count-request", 1, 4000) {
+			// the recorded finding, asked for outright now and then (each occurrence costs the run 20 s of real time):
+			// a well-formed request to a loaded wallet with an astronomically large count
+			big := []string{"4294967295", "9223372036854775807", "18446744073709551615"}[t.Int("directed-count", 3)]
+			form := func(kv ...string) string {
+				v := url.Values{}
+				for i := 0; i+1 < len(kv); i += 2 {
+					v.Set(kv[i], kv[i+1])
+				}
+				return v.Encode()
+			}
+			wi := t.Int("directed-wallet", 2)
+			pw := []string{"", "pw"}[wi]
+			q = apiReq{method: "POST", host: apiHost, ctype: "application/x-www-form-urlencoded"}
+			switch t.Int("directed-route", 4) {
+			case 0:
+				q.uri, q.body = "/api/v1/wallet/newAddress", form("id", a.walletNames[wi], "num", big, "password", pw)
+			case 1:
+				q.uri, q.body = "/api/v1/wallet/scan", form("id", a.walletNames[wi], "num", big, "password", pw)
+			case 2:
+				q.uri, q.body = "/api/v1/wallet/create", form("seed", "directed seed "+big, "label", "d", "scan", big)
+			case 3:
+				q.uri, q.body = "/api/v1/wallet/createTemp", form("seed", "directed seed "+big, "label", "d", "type", "deterministic", "scan", big)
+			}
+			method, rt.uri = "POST", q.uri
+			c.Count("probe.directed_count_request")
 		}
 		resp := a.do(q)
 		c.Kind(byte(resp.status/100), resp.panicked == nil)
